@@ -460,6 +460,12 @@ func TestVerifC09(t *testing.T) {
 			// failing creations, and the owner gone for good
 			add(offer(1, "video"), hdOp{K: "mcudone", Res: "fail"}, offer(1, "video"), done)
 			add(offer(1, "video"), hdOp{K: "drop", C: 2}, hdOp{K: "tick", O: 40}, done)
+			// losing one publish permission while keeping another closes exactly the publisher that needs it
+			permsOf := func(rs int, p ...int) hdOp {
+				return hdOp{K: "api", B: 0, SignAs: 0, R: 1, Api: "participants", RawRS: true, Users: []hdApiUser{{RS: rs, InCall: 7, HasP: true, Perm: p}}}
+			}
+			add(permsOf(1, 3, 2), offer(1, "video"), done, offer(1, "screen"), done, permsOf(1, 3), permsOf(1, 2), permsOf(1))
+			add(permsOf(1, 3, 2), offer(1, "screen"), done, offer(1, "video"), done, permsOf(1, 2), offer(1, "video"), permsOf(1, 0, 1, 2), permsOf(1, 0))
 			// objects of a session that is in no room (created before joining / after leaving) go with the session
 			add(offer(1, "video"), done, hdJoinOp(1, 0, 0), offer(1, "video"), done, hdOp{K: "bye", C: 1})
 			add(offer(1, "video"), done, hdJoinOp(1, 0, 0), offer(1, "screen"), done, hdOp{K: "drop", C: 1}, hdOp{K: "tick", O: 40})
